@@ -575,10 +575,16 @@ func (rr *replayBuilder) dimsFor(path string, t types.Type, depth int) bool {
 			if f.Name() == "_" {
 				continue
 			}
+			switch f.Type().Underlying().(type) {
+			case *types.Pointer, *types.Interface, *types.Signature, *types.Chan:
+				// a nil pointer / interface / function field is not a legitimate state of most objects (the contracts
+				// leave non-nil-ness implicit): such objects are not built by the generic driver
+				return false
+			}
 			if rr.dimsFor(path+"."+f.Name(), f.Type(), depth+1) {
 				any = true
 			}
-			// fields that cannot be generated keep their zero value
+			// map, slice and foreign struct fields that cannot be generated keep their zero value
 		}
 		return any || u.NumFields() == 0
 	}
